@@ -158,9 +158,33 @@ def _inline_return_temps(f, known):
     return done
 
 
+def _try_rename(f, want):
+    """-> mapping applied, {} if nothing to do, None if the shapes do not match"""
+    have = local_names(f)
+    new = [n for n in have if n not in want]
+    missing = [n for n in want if n not in have]
+    if not new:
+        return {}
+    if len(new) != len(missing):
+        return None
+    all_names = {n.id for n in ast.walk(f) if isinstance(n, ast.Name)} | set(_params(f)) | {n.name for n in ast.walk(f) if isinstance(n, ast.ExceptHandler) and n.name}
+    nested = _nested_binders(f)
+    # capture: a target name must not already occur in the function in any role; a renamed name must not be rebound in
+    # a nested scope
+    if any(m in all_names for m in missing) or any(n in nested for n in new):
+        return None
+    mapping = dict(zip(new, missing))
+    for n in ast.walk(f):
+        if isinstance(n, ast.Name) and n.id in mapping:
+            n.id = mapping[n.id]
+        elif isinstance(n, ast.ExceptHandler) and n.name in mapping:
+            n.name = mapping[n.name]
+    return mapping
+
+
 def normalise(tree, modname):
-    """Rename unknown locals to the reference's missing ones and restore mirrored comparisons.  Returns the list of
-    (function, {old: new}) applied."""
+    """Rename unknown locals to the reference's missing ones, inline extracted return temporaries and restore mirrored
+    comparisons.  Returns the list of (function, {old: new}) applied."""
     ref = ref_table().get(modname)
     applied = []
     if not ref:
@@ -171,41 +195,18 @@ def normalise(tree, modname):
         k = seen.get(q, 0)
         seen[q] = k + 1
         key = q if k == 0 else f'{q}#{k}'
-        want = ref.get(key)
-        _inline_return_temps(f, set(want or ()))
+        want = ref.get(key) or []
+        m = _try_rename(f, want)
+        if m is None:
+            # an extracted `t = E; return t` adds a local the reference does not have: inline it and try again
+            if _inline_return_temps(f, set(want)):
+                m = _try_rename(f, want)
+        elif not m:
+            _inline_return_temps(f, set(want))
+        if m:
+            applied.append((q, m))
         if key in cref:
-            # mirrored comparisons are restored after renaming so that names agree with the reference
-            pending_unflip = cref[key]
-        else:
-            pending_unflip = None
-        if want is None:
-            if pending_unflip:
-                _unflip(f, pending_unflip)
-            continue
-        have = local_names(f)
-        new = [n for n in have if n not in want]
-        missing = [n for n in want if n not in have]
-        if not new or len(new) != len(missing):
-            if pending_unflip:
-                _unflip(f, pending_unflip)
-            continue
-        all_names = {n.id for n in ast.walk(f) if isinstance(n, ast.Name)} | set(_params(f)) | {n.name for n in ast.walk(f) if isinstance(n, ast.ExceptHandler) and n.name}
-        nested = _nested_binders(f)
-        # capture: a target name must not already occur in the function in any role; a renamed name must not be rebound
-        # in a nested scope
-        if any(m in all_names for m in missing) or any(n in nested for n in new):
-            if pending_unflip:
-                _unflip(f, pending_unflip)
-            continue
-        mapping = dict(zip(new, missing))
-        for n in ast.walk(f):
-            if isinstance(n, ast.Name) and n.id in mapping:
-                n.id = mapping[n.id]
-            elif isinstance(n, ast.ExceptHandler) and n.name in mapping:
-                n.name = mapping[n.name]
-        applied.append((q, mapping))
-        if pending_unflip:
-            _unflip(f, pending_unflip)
+            _unflip(f, cref[key])
     return applied
 
 
